@@ -12,9 +12,11 @@ pub mod c08;
 pub mod c09;
 pub mod c10;
 pub mod c11;
+pub mod c12;
 pub mod c13;
 pub mod c14;
 pub mod c15;
+pub mod c19;
 
 pub type MonFn = fn(&mut Ctx);
 
@@ -50,6 +52,10 @@ pub fn registry() -> Vec<(&'static str, &'static str, MonFn)> {
         ("c15_malformed", "C15", c15::c15_malformed as MonFn),
         ("c15_huge", "C15", c15::c15_huge as MonFn),
         ("c15_case", "C15", c15::c15_case as MonFn),
+        ("c19_lifecycle", "C19", c19::lifecycle as MonFn),
+        ("c12_natural", "C12", c12::natural as MonFn),
+        ("c12_satcount", "C12", c12::satcount as MonFn),
+        ("c12_cache", "C12", c12::cache as MonFn),
         ("c02_pairs", "C02", c02::pairs as MonFn),
     ]
 }
